@@ -123,7 +123,8 @@ def external_portfolio(solver, inputs, timeout_s, logic=None):
     fresh.add(*(solver.assertions() if not isinstance(solver, (list, tuple)) else solver))
     smt = fresh.to_smt2()
     # to_smt2 ends with (check-sat); add get-value for the inputs
-    names = list(inputs.keys())
+    # only ask for values of inputs that the formula actually declares
+    names = [n for n in inputs.keys() if ("declare-fun %s " % _quote(n)) in smt or ("declare-const %s " % _quote(n)) in smt]
     smt = smt.replace("(check-sat)", "")
     head = "(set-option :produce-models true)\n(set-logic %s)\n" % (logic or "ALL")
     body = smt
